@@ -19,7 +19,7 @@ PLACEHOLDER = re.compile(r'##[A-Z_]+##')
 
 def isa_yaml(case):
     import yaml
-    doc = {'description': 'verif vocab', 'general': {'address_size': 16, 'endian': 'big', 'registers': list(case['regs']),
+    doc = {'description': case.get('description', 'verif vocab'), 'general': {'address_size': 16, 'endian': 'big', 'registers': list(case['regs']),
                                                        'identifier': {'name': 'vocab-test', 'version': '1.2.3'}},
            'operand_sets': {'s0': {'operand_values': {'n': {'type': 'numeric', 'argument': {'size': 8, 'byte_align': True}}}}},
            'instructions': {case.get('keycase', {}).get(m, m): {'bytecode': {'value': i % 256, 'size': 8}} for i, m in enumerate(case['instrs'])}}
@@ -123,6 +123,18 @@ def impl_vocab(case):
                               ('compiler_labels', v_lab is not None)):
             if present and not reachable(rule):
                 raise SystemExit(f'grammar rule {rule} is defined but never included')
+        # Sublime applies the first rule of a context that matches at the leftmost position: an instruction must be taken by the
+        # instruction rule and a macro by the macro rule
+        rules = [(d['match'], d.get('scope')) for d in ctx['instructions'] if 'match' in d and str(d.get('scope', '')).startswith('variable.function')]
+        for word, want in [(w, 'variable.function.instruction') for w in case['instrs']] + [(w, 'variable.function.macro') for w in case['macros']]:
+            for pat, scope in rules:
+                m = re.match(pat, word)
+                if m:
+                    # (the class is what the property speaks of; when 'cmp' and 'cmp.b' are both mnemonics the generated pattern
+                    # takes 'cmp.b' as 'cmp' + '.b' -- same class, shorter extent -- which is not held against it here)
+                    if scope != want:
+                        raise SystemExit(f'sublime: {word!r} is taken by the rule for {scope} (matching {m.group(0)!r}), not by {want}')
+                    break
         out = {'vscode': [], 'sublime': []}
         for pr in case['probes']:
             vo = {_search(x, pr) for x in v_ops}
@@ -166,6 +178,12 @@ def gen_vocab_cases(rng, tier):
             macros = [m for m in [rng.choice(['mac', 'dbl', 'pushall', 'ldm']) + rng.choice(['', '2', 'x']) for _ in range(rng.randint(1, 3))]
                       if m not in instrs]
             macros = sorted(set(macros))
+        # a macro named like the stem of a dotted mnemonic (mov / mov.b)
+        dotted = [m for m in instrs if '.' in m]
+        if dotted and rng.random() < 0.6:
+            stem = dotted[0].split('.')[0]
+            instrs = [m for m in instrs if m != stem]
+            macros = sorted(set(macros + [stem]))
         regs = rng.sample(['a', 'b', 'hl', 'sp', 'ix', 'r10', 'r1'], rng.randint(0, 4))
         labels = rng.sample(['VEC', 'RAMTOP', 'io_base', 'Kmax'], rng.randint(0, 3))
         names = instrs + macros + regs + labels
@@ -179,7 +197,8 @@ def gen_vocab_cases(rng, tier):
         for nm in instrs + macros:
             if rng.random() < 0.3:
                 keycase[nm] = rng.choice([nm.upper(), nm.capitalize()])
-        out.append({'instrs': instrs, 'macros': macros, 'regs': regs, 'labels': labels, 'probes': probes, 'keycase': keycase})
+        out.append({'instrs': instrs, 'macros': macros, 'regs': regs, 'labels': labels, 'probes': probes, 'keycase': keycase,
+                    'description': rng.choice(['verif vocab', 'Tiny 8-bit CPU <R&D build>, "rev. B"', "it's <b>bold</b> & more", 'plain'])})
     return out
 
 
